@@ -10,28 +10,83 @@ import re
 from verif.gen.tokens import TOKEN_FIND
 
 HTML_VARIANTS = ("p", "bare", "sections", "implied")     # "implied" only for text/html (optional end tags omitted)
+HTML_SECTIONS = ("none", "body", "head", "foot", "headfoot", "bodies")
+HTML_OMIT = "crsp"          # end tags that may be left out: c = </td> </th>, r = </tr>, s = </thead> </tbody> </tfoot>, p = </p>
+HTML_FLAGS = ("ws", "attr", "upper", "cg")
 
 
 # ------------------------------------------------------------------------------------------------ HTML renderer
 
-def html_blocks(blocks, variant: str = "p") -> str:
-    """ADM blocks (only "p" with ["t", tok] inlines and "tbl") -> markup that is valid both as HTML5 and XHTML,
-    except variant "implied" (HTML5 only: the optional end tags </td>, </th>, </tr>, </tbody> are omitted).
+def html_spelling(variant) -> dict:
+    """normal form of the "html" option of a case: one of the four named variants (kept for the fingerprints recorded with
+    them) or a dict
+        {"v": "p" | "bare",       cell paragraphs as <p> elements / a single paragraph as bare text
+         "sec": one of HTML_SECTIONS   none: rows directly in <table>; body: all rows in one <tbody>; head: row 0 in <thead>, the
+                                  rest in <tbody>; foot: last row in <tfoot>, the rest in <tbody>; headfoot: both (a middle <tbody>
+                                  only if there are middle rows); bodies: every row in a <tbody> of its own
+         "omit": subset of "crsp"  optional end tags left out (HTML5 13.1.2.4); text/html only
+         "ws": 1     line breaks and indentation between the table tags (and after the text of a cell whose end tag is omitted)
+         "attr": 1   attributes on the cell tags: th scope=row|col (unquoted), td class="x" colspan="1" rowspan="1"
+         "upper": 1  upper-case tag names (text/html only)
+         "cg": 1     a <colgroup> with one void <col> per column before the rows}
+    Which cells are <th> is part of the table itself (["tbl", rows, {"th": mask}]), not of the spelling."""
+    if isinstance(variant, dict):
+        sp = {"v": "bare", "sec": "none", "omit": ""}
+        sp.update(variant)
+        if sp["v"] not in ("p", "bare") or sp["sec"] not in HTML_SECTIONS or any(ch not in HTML_OMIT for ch in sp["omit"]):
+            raise ValueError("html spelling %r" % (variant,))
+        for k in sp:
+            if k not in ("v", "sec", "omit") + HTML_FLAGS:
+                raise ValueError("html spelling key %r" % (k,))
+        return sp
+    if variant == "p":
+        return {"v": "p", "sec": "none", "omit": ""}
+    if variant == "bare":
+        return {"v": "bare", "sec": "none", "omit": ""}
+    if variant == "sections":
+        return {"v": "bare", "sec": "head", "omit": "", "head_th": 1}
+    if variant == "implied":
+        return {"v": "bare", "sec": "none", "omit": "crs", "legacy_implied": 1}
+    raise ValueError("html variant %r" % (variant,))
+
+
+def html_is_xml_ok(variant) -> bool:
+    """can the spelling be written as XHTML (EPUB)? (no omitted end tags, no upper-case names, no unquoted attributes)"""
+    sp = html_spelling(variant)
+    return not sp["omit"] and not sp.get("upper") and not sp.get("attr")
+
+
+def html_blocks(blocks, variant="p") -> str:
+    """ADM blocks (only "p" with ["t", tok] inlines and "tbl") -> markup that is valid both as HTML5 and XHTML as long as
+    html_is_xml_ok(variant). See html_spelling for the spellings; the four named variants are
 
        "p"         every cell paragraph is a <p> element
        "bare"      a cell holding exactly one paragraph holds its text directly (the usual hand-written form)
        "sections"  like "bare"; tables with >= 2 rows put row 0 in <thead> with <th> cells, the rest in <tbody>
        "implied"   like "bare" with the optional end tags of td / tr left out (HTML5 13.1.2.4)
     """
+    return _blocks(blocks, html_spelling(variant))
+
+
+def _blocks(blocks, sp, in_cell=False) -> str:
     out = []
     for b in blocks:
         if b[0] == "p":
-            out.append("<p>%s</p>" % _inl(b[1]))
+            if in_cell and "p" in sp["omit"]:        # only inside cells: there the cell end / next cell start ends the paragraph
+                out.append(_tag(sp, "p") + _inl(b[1]))
+            else:
+                out.append(_tag(sp, "p") + _inl(b[1]) + _tag(sp, "/p"))
         elif b[0] == "tbl":
-            out.append(_table(b[1], variant))
+            out.append(_table(b[1], sp, (b[2] if len(b) > 2 else None) or {}, in_cell))
         else:
             raise NotImplementedError("C13 html renderer: block %r" % (b[0],))
     return "".join(out)
+
+
+def _tag(sp, name, attrs="") -> str:
+    if sp.get("upper"):
+        name = name.upper()
+    return "<%s%s>" % (name, attrs)
 
 
 def _inl(xs) -> str:
@@ -43,37 +98,82 @@ def _inl(xs) -> str:
     return "".join(s)
 
 
-def _cell(cell, variant) -> str:
-    if variant != "p" and len(cell) == 1 and cell[0][0] == "p":
+def _cell(cell, sp) -> str:
+    if sp["v"] != "p" and len(cell) == 1 and cell[0][0] == "p":
         return _inl(cell[0][1])
-    return html_blocks(cell, variant)
+    return _blocks(cell, sp, True)
 
 
-def _table(rows, variant) -> str:
+def _table(rows, sp, extra, nested=False) -> str:
     if not rows or any(not r for r in rows):
         raise NotImplementedError("a table needs rows and every row needs a cell")
-    x = ["<table>"]
-    if variant == "implied":
+    if sp.get("legacy_implied"):
+        if extra.get("th"):
+            raise NotImplementedError("the named variant 'implied' writes <td> cells only")
+        x = ["<table>"]
         for row in rows:
             x.append("<tr>")
             for cell in row:
-                x.append("<td>" + _cell(cell, variant))
+                x.append("<td>" + _cell(cell, sp))
         x.append("</table>")
         return "".join(x)
-    head = variant == "sections" and len(rows) >= 2
+    mask = extra.get("th")
+    n = len(rows)
+    sec = sp["sec"]
+    if sp.get("head_th") and n < 2:
+        sec = "none"
+    if nested and n < 2 and sec in ("head", "foot", "headfoot"):
+        sec = "body"                      # a one-row table inside a cell cannot have two sections
+    # section of every row
+    if sec == "none":
+        secs = [None] * n
+    elif sec == "body":
+        secs = [("tbody", 0)] * n
+    elif sec == "bodies":
+        secs = [("tbody", i) for i in range(n)]
+    else:
+        if n < 2:
+            raise NotImplementedError("sections %r need two rows" % (sec,))
+        secs = [("tbody", 0)] * n
+        if sec in ("head", "headfoot"):
+            secs[0] = ("thead", 0)
+        if sec in ("foot", "headfoot"):
+            secs[-1] = ("tfoot", 0)
+    omit = sp["omit"]
+    nl, ind1, ind2 = ("\n", "  ", "    ") if sp.get("ws") else ("", "", "")
+    x = [_tag(sp, "table"), nl]
+    if sp.get("cg"):
+        x += [_tag(sp, "colgroup"), "".join(_tag(sp, "col") if not html_is_xml_ok_sp(sp) else "<col/>" for _ in range(max(len(r) for r in rows))),
+              _tag(sp, "/colgroup"), nl]
+    cur = None
     for i, row in enumerate(rows):
-        if head and i == 0:
-            x.append("<thead>")
-        if head and i == 1:
-            x.append("<tbody>")
-        tag = "th" if head and i == 0 else "td"
-        x.append("<tr>" + "".join("<%s>%s</%s>" % (tag, _cell(c, variant), tag) for c in row) + "</tr>")
-        if head and i == 0:
-            x.append("</thead>")
-    if head:
-        x.append("</tbody>")
-    x.append("</table>")
+        if secs[i] != cur:
+            if cur is not None and "s" not in omit:
+                x += [_tag(sp, "/" + cur[0]), nl]
+            cur = secs[i]
+            if cur is not None:
+                x += [_tag(sp, cur[0]), nl]
+        x += [ind1, _tag(sp, "tr"), nl]
+        for j, c in enumerate(row):
+            th = bool(mask and mask[i][j]) or bool(sp.get("head_th") and secs[i] and secs[i][0] == "thead")
+            name = "th" if th else "td"
+            attrs = ""
+            if sp.get("attr"):
+                attrs = (" scope=%s" % ("col" if i == 0 else "row")) if th else ' class="x" colspan="1" rowspan="1"'
+            x += [ind2, _tag(sp, name, attrs), _cell(c, sp)]
+            if "c" not in omit:
+                x.append(_tag(sp, "/" + name))
+            x.append(nl)
+        if "r" not in omit:
+            x += [ind1, _tag(sp, "/tr"), nl]
+    if cur is not None and "s" not in omit:
+        x += [_tag(sp, "/" + cur[0]), nl]
+    x.append(_tag(sp, "/table"))
     return "".join(x)
+
+
+def html_is_xml_ok_sp(sp) -> bool:
+    return not sp["omit"] and not sp.get("upper") and not sp.get("attr")
 
 
 # ------------------------------------------------------------------------------------------------ cell text
